@@ -8,12 +8,15 @@
    queues are empty); (2) two API-level clauses, end to end: the handler observes io.EOF only if its caller
    half-closed that stream ([C02_handler_eof_sound_partial]), and every message a handler received is the
    body of an envelope its caller wrote on that stream ([C02_handler_recv_was_sent_partial]: no fabrication,
-   no alteration towards the handler). NOT proved: the order / no-loss / no-duplication clauses at API level
-   and the caller-side EOF clauses: they need per-id FIFO facts of the two components (docs/notes-sy.md);
+   no alteration towards the handler), and the caller observes io.EOF only if the handler of that stream
+   returned nil - the envelope it took is the very trailer SendTrailer built from that nil return
+   ([C02_caller_eof_sound_partial]). NOT proved: the order / no-loss / no-duplication clauses at API level,
+   "EOF only after all messages" and EOF completeness: they need per-id FIFO facts of the two components
+   (docs/notes-sy.md);
    the boolean predicates of Check/C02c.v judge all clauses on every recorded history of the real code. *)
 From Coq Require Import List ZArith Bool.
 Import ListNotations.
-From Goat Require Import Model.Client Model.Server Model.Sys Proofs.SysLog Proofs.SysProofs Proofs.SysC01 Proofs.SysC02 Proofs.SysC02b.
+From Goat Require Import Model.Client Model.Server Model.Sys Proofs.SysLog Proofs.SysProofs Proofs.SysC01 Proofs.SysC02 Proofs.SysC02b Proofs.SysC02c Proofs.SysC02d.
 Open Scope Z_scope.
 
 Theorem C02_wire_c2s_prefix_partial : forall pol ls s i, Sys.lrun pol Sys.init ls = Some s ->
@@ -47,6 +50,17 @@ Theorem C02_handler_recv_was_sent_partial : forall pol ls s h b, Sys.lrun pol Sy
   exists k e, nth_error (hs (sv s)) h = Some k /\ In (EvWrite e) (Client.log (cl s)) /\ eid e = fid (h_req k) /\ ebody e = Some b.
 Proof. exact C02_handler_recv_was_sent. Qed.
 Print Assumptions C02_handler_recv_was_sent_partial.
+
+(* the caller observes io.EOF on a stream only if the handler serving that stream returned nil: the envelope the
+   caller took is the trailer that SendTrailer built (status OK) from that return *)
+Theorem C02_caller_eof_sound_partial : forall pol ls s c k, Sys.lrun pol Sys.init ls = Some s ->
+  nth_error (calls (cl s)) c = Some k -> k_unary k = false ->
+  In (EvRecvRet c (RErr EEof)) (Client.log (cl s)) ->
+  exists h kh fr, nth_error (hs (sv s)) h = Some kh /\ h_unary kh = false /\ fid (h_req kh) = k_id k /\
+                  In (SvRet h) (Server.log (sv s)) /\ In (SvTrailer h fr) (Server.log (sv s)) /\
+                  (exists k2, fr = trl_frame k2 HNil) /\ In (EvTake c (f_env fr)) (Client.log (cl s)).
+Proof. exact C02_caller_eof_sound. Qed.
+Print Assumptions C02_caller_eof_sound_partial.
 
 (* a concrete run: one stream, two messages echoed, half-close, the handler sees EOF and returns nil, the
    caller sees both messages and then io.EOF; the final state is quiescent with empty wires *)
